@@ -79,6 +79,9 @@ def _rows_sorted(a):
 
 def _adj_bundle(m, which):
     """face adjacency aligned arrays as rows sorted by the (sorted) face pair."""
+    # the named value is read BEFORE the array it is aligned with: reading the partner first can
+    # recompute both and hide a stale entry
+    first = None if which == "pairs" else np.array(getattr(m, which))
     adj = np.asarray(m.face_adjacency)
     if len(adj) == 0:
         return np.zeros((0, 2))
@@ -87,7 +90,9 @@ def _adj_bundle(m, which):
     order = np.lexsort(pair.T[::-1])
     if which == "pairs":
         return pair[order]
-    val = np.asarray(getattr(m, which))
+    val = first
+    if len(val) != len(adj):
+        return ("misaligned", len(val), len(adj))
     if which in ("face_adjacency_radius", "face_adjacency_span"):
         # radius = span / (2 sin(angle / 2)) is ill conditioned for nearly coplanar pairs
         val = np.where(np.abs(np.sin(np.asarray(m.face_adjacency_angles))) < 1e-4, -1.0, np.where(np.isfinite(val), val, -2.0)) if which == "face_adjacency_radius" else val
@@ -147,11 +152,11 @@ READERS = {
     "edges_face": lambda m: m.edges_face,
     "edges_sorted": lambda m: m.edges_sorted,
     "edges_unique": lambda m: _rows_sorted(m.edges_unique),
-    "edges_unique_inverse": lambda m: np.asarray(m.edges_unique)[m.edges_unique_inverse],
-    "edges_unique_length": lambda m: _rows_sorted(np.column_stack([m.edges_unique, m.edges_unique_length])),
+    "edges_unique_inverse": lambda m: (lambda inv: np.asarray(m.edges_unique)[inv])(np.array(m.edges_unique_inverse)),
+    "edges_unique_length": lambda m: (lambda ln: _rows_sorted(np.column_stack([m.edges_unique, ln])))(np.array(m.edges_unique_length)),
     "edges_sparse": lambda m: m.edges_sparse.toarray().astype(np.int64),
     "faces_sparse": lambda m: m.faces_sparse.toarray().astype(np.int64),
-    "faces_unique_edges": lambda m: np.asarray(m.edges_unique)[m.faces_unique_edges],
+    "faces_unique_edges": lambda m: (lambda fu: np.asarray(m.edges_unique)[fu])(np.array(m.faces_unique_edges)),
     "face_adjacency": lambda m: _adj_bundle(m, "pairs"),
     "face_adjacency_edges": lambda m: _adj_bundle(m, "face_adjacency_edges"),
     "face_adjacency_unshared": lambda m: _adj_bundle(m, "face_adjacency_unshared"),
@@ -558,6 +563,18 @@ class System:
                                     stale.append(k)
                             except Exception:
                                 pass
+            # a cache entry that survived the mutator although it is wrong: its own reader, read FIRST on a
+            # replay of its own, must not serve it (reading other values first can recompute and hide it)
+            if order == 0:
+                for k in stale:
+                    c2 = self.build(start, hist)
+                    got = observe(c2.m, k)
+                    want = _fresh_obs(fkey, fresh, k)
+                    if not same(k, got, want):
+                        out = [(f"{_mut_name(hist)} keeps stale cached {k}", {"reader": k, "got": got, "want": want, "stale_cache_entries": stale, "read_order": "stale entry read first"})]
+                        break
+                if out:
+                    break
             names = self.check_readers if order == 0 else self.check_readers[::-1]
             for r in names:
                 got = observe(m, r)
